@@ -181,7 +181,7 @@ func (s str) concrete() (string, bool) {
 
 func (in *Interp) checkOpaque(s str) {
 	if s.opaque {
-		unsupported("inspection of an opaque (stubbed fmt) string")
+		unsupported("inspection of an opaque (stubbed fmt) string in %s", in.stackTail(3))
 	}
 }
 
@@ -592,5 +592,6 @@ func (in *Interp) runtimeError(msg string) value {
 }
 
 func (in *Interp) rtPanic(msg string) {
+	in.lastPanicSite = in.stackTail(4)
 	panic(targetPanic{in.runtimeError(msg)})
 }
